@@ -43,8 +43,8 @@ Theorem undelivered_event_is_reportable : forall ops,
 Proof. intros ops H s n Hs Hn. exact (event_reportable _ s n (reach_inv ops H) Hs Hn). Qed.
 
 Theorem unfixed_purge_loses_a_change :
-  exists ops, inv_b (run_gen false true init ops) = false /\ inv_b (run init ops) = true /\
-    let st := run_gen false true init ops in
+  exists ops, inv_b (run_gen false true true init ops) = false /\ inv_b (run init ops) = true /\
+    let st := run_gen false true true init ops in
     existsb (fun s => stale (log st) (s_del s) f7_path && negb (unprimed s) &&
                       negb (is_reportable s 20000 (tab st) (evn st)) &&
                       negb (contains_since (tab st) f7_path (s_seen s))) (subs st) = true.
